@@ -102,8 +102,7 @@ func runC20(p *Prog, r *Report, tier string) {
 		if c, ok := ctx[fn]; ok {
 			return c
 		}
-		c := &FC{p: p, r: r, fn: fn, x: p.tx(fn), name: funcName(fn)}
-		c.ifs = p.ifs(fn)
+		c := p.fc(r, fn, funcName(fn), nil)
 		ctx[fn] = c
 		return c
 	}
@@ -388,7 +387,7 @@ func dischargeRolePanicRow(p *Prog, r *Report, c *FC, s panicSite, key string, r
 	// only when absent: the single store read of the panicking function, which (seen from the getter) reads the role's slot
 	var get *Effect
 	nR := 0
-	for _, e := range p.effects(s.Fn).direct {
+	for _, e := range p.ownInner(s.Fn) {
 		if e.Kind == "R" {
 			e := e
 			get = &e
@@ -410,13 +409,17 @@ func dischargeRolePanicRow(p *Prog, r *Report, c *FC, s panicSite, key string, r
 	}
 	absentOnly := false
 	if get != nil && nR == 1 && ownReads == 1 {
-		t := c.x.Of(get.In.(ssa.Value), get.In).String()
+		site := get.In
+		if get.Inner != nil {
+			site = get.Inner
+		}
+		t := c.termAt(site.(ssa.Value), site).String()
 		absentOnly = established(c, "(nil == "+t+")", true, s.In) || established(c, "("+t+" == nil)", true, s.In)
 	}
 	// no deleter
 	nDel := 0
 	for _, fn := range p.Funcs {
-		for _, e := range p.effects(fn).direct {
+		for _, e := range p.own(fn) {
 			if e.Kind == "D" && e.Region == region {
 				nDel++
 			}
@@ -501,6 +504,10 @@ func checkIntTypestate(p *Prog, r *Report, reach map[*ssa.Function]bool, fc func
 				callee := u.Call.StaticCallee()
 				if callee != nil && strings.HasPrefix(funcName(callee), "(sdkmath.Int).") && len(u.Call.Args) > 0 && u.Call.Args[0] == s.v && intNilSafe[callee.Name()] {
 					r.ok("P-intnil", key+"/"+callee.Name(), pos, "nil-safe method "+callee.Name())
+					continue
+				}
+				if callee != nil && p.newHelper(callee) && guarded(u) {
+					r.ok("P-intnil", key+"/passed-to/"+funcName(callee), pos, "passed to a new helper behind !IsNil")
 					continue
 				}
 				if callee != nil && p.inModuleCode(callee) {
